@@ -399,6 +399,21 @@ def opDropSpawn (a : Actor) : M :=
     andThen (cleanup a none) fun a => (a.dropPorts, [])
   | _ => (a, [.note "nospawn"])
 
+/-- One poll of the loop task while callback `cb` is open: `run_with_signal` polls the signal port
+first, then the callback future. -/
+def pollOpen (a : Actor) (cb : Cb) : M :=
+  let a : Actor := { a with woken := false }
+  if a.sigVal then
+    andThen (say { a with sigVal := false } (.cancelled cb)) fun a =>
+    match a.phase with
+    | .inMsg | .inSup => killedInLoop a
+    | _ => killedOutsideLoop a
+  else
+    let a : Actor := { a with sigW := true }
+    match a.seg with
+    | none => ({ a with gateW := true }, [])
+    | some s => runSeg { a with seg := none } cb s afterExit
+
 /-- One poll of the loop task. -/
 def opPoll (a : Actor) : M :=
   match a.phase with
@@ -407,19 +422,10 @@ def opPoll (a : Actor) : M :=
     if a.sigVal then killedOutsideLoop { a with sigVal := false }
     else ({ a with phase := .postStart, sigW := true, gateW := true }, [.ev (.enter .postStart .none)])
   | .idle => listen { a with woken := false }
-  | .postStart | .inMsg | .inSup | .postStop _ =>
-    let a : Actor := { a with woken := false }
-    let cb := a.phase.openCb.getD .handle
-    if a.sigVal then
-      andThen (say { a with sigVal := false } (.cancelled cb)) fun a =>
-      match a.phase with
-      | .inMsg | .inSup => killedInLoop a
-      | _ => killedOutsideLoop a
-    else
-      let a : Actor := { a with sigW := true }
-      match a.seg with
-      | none => ({ a with gateW := true }, [])
-      | some s => runSeg { a with seg := none } cb s afterExit
+  | .postStart => pollOpen a .postStart
+  | .inMsg => pollOpen a .handle
+  | .inSup => pollOpen a .sup
+  | .postStop _ => pollOpen a .postStop
   | _ => (a, [.note "notask"])
 
 /-- `JoinHandle::abort` + the runtime dropping the task's future. -/
